@@ -261,12 +261,12 @@ pub fn run(env: &mut Env, thorough: bool) {
         env.emit(row);
         let z = Sizes { r, nf, span, dhi };
         let pb = g1 * 8 / env.b;
-        let nq = if thorough { 120 } else { 32 };
+        let nq = if thorough { 80 } else { 32 };
 
         let mut bitmaps: Vec<Vec<(usize, u64)>> = vec![vec![]]; // the empty bitmap
         // one set field: every position near the boundary and at the ends (all positions: thorough)
         let mut singles: Vec<usize> = if thorough { vec![0, 1, nf - 2, nf - 1] } else { vec![0, nf - 1] };
-        let near = if thorough { 12 } else { 3 };
+        let near = if thorough { 8 } else { 3 };
         singles.extend(pb.saturating_sub(near)..(pb + near).min(nf));
         if thorough {
             singles.extend((0..nf).step_by(3));
@@ -284,10 +284,11 @@ pub fn run(env: &mut Env, thorough: bool) {
             vec![0, pb - 1, pb, (pb + 1).min(nf - 1), nf - 1]
         };
         let mut k = 0;
+        let npairs = pairs_from.len() * (pairs_from.len() - 1) / 2;
         for (i, &f1) in pairs_from.iter().enumerate() {
             for &f2 in &pairs_from[i + 1..] {
                 k += 1;
-                if thorough && pairs_from.len() > 24 && k % 3 != 0 {
+                if thorough && k % (npairs / 60 + 1) != 0 {
                     continue;
                 }
                 let (v1, v2) = (nonzero_val(env, k), nonzero_val(env, k + 1));
@@ -295,7 +296,7 @@ pub fn run(env: &mut Env, thorough: bool) {
             }
         }
         let nb_fixed = bitmaps.len();
-        let nrand = if thorough { 100 } else { 6 };
+        let nrand = if thorough { 40 } else { 6 };
 
         for bi in 0..(nb_fixed + nrand) {
             let focus: Vec<usize>;
